@@ -52,6 +52,7 @@ type RTObs struct {
 	Expiry        int      `json:"expiry"`
 	RetDescOK     bool     `json:"retDescOK"`
 	MetaOK        bool     `json:"metaOK"`
+	BrokenReader  string   `json:"brokenReader"` // "n/a" | "refused" | "accepted": a blob reader that fails part-way, signature over the part delivered
 	Panic         bool     `json:"panic"`
 	Note          string   `json:"-"`
 }
@@ -158,7 +159,7 @@ func runRoundTrip() int {
 		ver, bver := rtVerifier(chain, in.Signer == "localTSA")
 		meta := rtMeta(in.Meta)
 		ctx := context.Background()
-		obs := RTObs{PayloadFields: []string{}}
+		obs := RTObs{PayloadFields: []string{}, BrokenReader: "n/a"}
 		sopts := notation.SignerSignOptions{SignatureMediaType: mediaTypeOf(in.Format), ExpiryDuration: time.Duration(in.Expiry) * time.Second, SigningAgent: "verif-harness/1"}
 		if in.Signer == "localTSA" {
 			// the library's own signing path asks the mini-TSA for an RFC 3161 countersignature
@@ -264,6 +265,18 @@ func runRoundTrip() int {
 					outcome = oc
 					// successful blob verification returns the descriptor of the blob that was verified
 					obs.RetDescOK = desc.Digest == wantTarget.Digest && desc.Size == wantTarget.Size && desc.MediaType == cmt
+					// a reader that fails after half of the blob, and a valid signature over exactly that half: not a verified blob
+					if half := blob[:len(blob)/2]; len(half) > 0 {
+						if hsig, _, herr := notation.SignBlob(ctx, sg, bytes.NewReader(half), notation.SignBlobOptions{SignerSignOptions: sopts, ContentMediaType: cmt}); herr == nil {
+							broken := io.MultiReader(bytes.NewReader(half), iotest.ErrReader(io.ErrUnexpectedEOF))
+							_, _, berr := notation.VerifyBlob(ctx, bver, broken, hsig, notation.VerifyBlobOptions{ContentMediaType: cmt,
+								BlobVerifierVerifyOptions: notation.BlobVerifierVerifyOptions{SignatureMediaType: mediaTypeOf(in.Format), TrustPolicyName: "bp"}})
+							obs.BrokenReader = "refused"
+							if berr == nil {
+								obs.BrokenReader = "accepted"
+							}
+						}
+					}
 					// the caller decorates the descriptor it was handed: its own business, the outcome does not change
 					for k := range desc.Annotations {
 						desc.Annotations[k] = "changed by the caller"
